@@ -133,6 +133,11 @@ func execSW(in In, em *Emitter) {
 			calls = []J{}
 		}
 		ev["under"] = calls
+		if c, ok := swCursor(w); ok {
+			ev["cur"] = num(c) // the cursor itself, through the verif hook (besides the Seek probes)
+		} else {
+			ev["cur"] = -1
+		}
 		em.Emit(k, ev)
 		em.Calls(1)
 		if abn != "" {
